@@ -8,8 +8,11 @@ Import ListNotations.
 Open Scope Z_scope.
 
 Definition nzp (im : img) : list (Z * Z * Z) := filter (fun p => negb (p_v p =? 0)) (pixels im).
+Section MinLength.
+(* the table length requested from np.bincount: minlength = max(indexes) + 1 *)
+Variable mlen : Z.
 Definition bcq (im : img) (val : Z * Z * Z -> Q) : list Q :=
-  bincount 0%Q qadd 0 (map (fun p => (p_v p, val p)) (nzp im)).
+  bincount 0%Q qadd mlen (map (fun p => (p_v p, val p)) (nzp im)).
 Definition e_m00s im := bcq im (fun _ => 1%Q).
 Definition e_ics im := omap2 qdiv (bcq im (fun p => inject_Z (p_y p))) (e_m00s im).
 Definition e_jcs im := omap2 qdiv (bcq im (fun p => inject_Z (p_x p))) (e_m00s im).
@@ -22,17 +25,7 @@ Definition e_rows im : list (option ell) :=
   map frow (combine (e_m00s im) (combine (e_ics im) (combine (e_jcs im)
              (combine (e_as im) (combine (e_bs im) (e_cs im)))))).
 
-Lemma ellipse_unfold im idxs :
-  idxs <> [] -> nzp im <> [] ->
-  ellipse_moments im idxs =
-  match gather (e_rows im) idxs with Some r => EllRows r | None => EllIndexError end.
-Proof.
-  intros Hi Hn. unfold ellipse_moments. destruct idxs as [|i0 r0]; [contradiction|].
-  fold (nzp im). destruct (nzp im) as [|p0 n0] eqn:E; [contradiction|].
-  unfold e_rows, e_as, e_bs, e_cs, e_ci, e_cj, e_ics, e_jcs, e_m00s, bcq. rewrite E. reflexivity.
-Qed.
-
-Definition NN (im : img) : nat := Z.to_nat (Z.max (maxl (map p_v (nzp im)) + 1) 0).
+Definition NN (im : img) : nat := Z.to_nat (Z.max (maxl (map p_v (nzp im)) + 1) mlen).
 
 Lemma bcq_length im val : length (bcq im val) = NN im.
 Proof. unfold bcq, NN. rewrite bincount_length, map_map. reflexivity. Qed.
@@ -170,6 +163,18 @@ Proof.
   rewrite Ei, Ej. reflexivity.
 Qed.
 
+End MinLength.
+
+Lemma ellipse_unfold im idxs :
+  idxs <> [] -> nzp im <> [] ->
+  ellipse_moments im idxs =
+  match gather (e_rows (maxl idxs + 1) im) idxs with Some r => EllRows r | None => EllIndexError end.
+Proof.
+  intros Hi Hn. unfold ellipse_moments. destruct idxs as [|i0 r0] eqn:Eidx; [contradiction|]. rewrite <- Eidx.
+  fold (nzp im). destruct (nzp im) as [|p0 n0] eqn:E; [contradiction|].
+  unfold e_rows, e_as, e_bs, e_cs, e_ci, e_cj, e_ics, e_jcs, e_m00s, bcq. rewrite E. reflexivity.
+Qed.
+
 Lemma gather_some {A} (a : list A) d : forall idxs r,
   gather a idxs = Some r ->
   r = map (fun i => nth (Z.to_nat i) a d) idxs
@@ -194,33 +199,37 @@ Proof.
   intros Him Hpos H Hn. destruct idxs as [|i0 t] eqn:Eidx.
   - cbn in H. injection H as <-. reflexivity.
   - rewrite <- Eidx in *. rewrite ellipse_unfold in H by (auto; rewrite Eidx; discriminate).
-    destruct (gather (e_rows im) idxs) as [r'|] eqn:Eg; [|discriminate]. injection H as <-.
+    set (m := maxl idxs + 1) in *.
+    destruct (gather (e_rows m im) idxs) as [r'|] eqn:Eg; [|discriminate]. injection H as <-.
     destruct (gather_some _ None _ _ Eg) as [-> Hr]. unfold ells. apply map_ext_in. intros l Hl.
     destruct (Hr l Hl) as [Hl0 Hlt].
-    assert (Hk : (Z.to_nat l < NN im)%nat).
+    assert (Hk : (Z.to_nat l < NN m im)%nat).
     { unfold e_rows in Hlt. rewrite map_length, !combine_length in Hlt.
-      destruct (e_lengths im) as [L0 _]. rewrite L0 in Hlt. lia. }
-    rewrite e_rows_nth by assumption. apply row_of_coords; auto.
+      destruct (e_lengths m im) as [L0 _]. rewrite L0 in Hlt. lia. }
+    rewrite e_rows_nth by assumption. apply (row_of_coords m); auto.
 Qed.
 
-(* and it does return rows whenever every requested label is at most the largest label *)
+(* and it returns rows for EVERY request list of positive labels - present or not, below or above the largest label
+   of the image (the tables have max(indexes) + 1 entries): an absent label gets the row of no pixels (nan) *)
 Theorem ellipse_rows_defined im idxs :
   nonneg_img im -> idxs <> [] -> nzp im <> [] ->
-  (forall l, In l idxs -> 0 < l <= maxl (map p_v (nzp im))) ->
+  (forall l, In l idxs -> 0 < l) ->
   ellipse_moments im idxs = EllRows (ells im idxs).
 Proof.
-  intros Him Hi Hn Hr. rewrite ellipse_unfold by assumption.
+  intros Him Hi Hn Hr. rewrite ellipse_unfold by assumption. set (m := maxl idxs + 1).
+  assert (Hk : forall l, In l idxs -> (Z.to_nat l < NN m im)%nat).
+  { intros l Hl. pose proof (Hr l Hl). pose proof (maxl_ge idxs l Hl). unfold NN, m. lia. }
   rewrite (gather_total _ None).
-  - f_equal. unfold ells. apply map_ext_in. intros l Hl. destruct (Hr l Hl) as [H0 H1].
-    assert (Hk : (Z.to_nat l < NN im)%nat) by (unfold NN; lia).
-    rewrite e_rows_nth by (auto; lia). apply row_of_coords; auto.
-  - intros l Hl. destruct (Hr l Hl) as [H0 H1]. split; [lia|].
+  - f_equal. unfold ells. apply map_ext_in. intros l Hl. pose proof (Hr l Hl) as H0.
+    rewrite e_rows_nth by (auto; lia). apply (row_of_coords m); auto.
+  - intros l Hl. pose proof (Hr l Hl) as H0. split; [lia|].
     unfold e_rows. rewrite map_length, !combine_length.
-    destruct (e_lengths im) as [L0 [L1 [L2 [L3 [L4 L5]]]]]. rewrite L0, L1, L2, L3, L4, L5, !Nat.min_id.
-    unfold NN. lia.
+    destruct (e_lengths m im) as [L0 [L1 [L2 [L3 [L4 L5]]]]]. rewrite L0, L1, L2, L3, L4, L5, !Nat.min_id.
+    apply Hk, Hl.
 Qed.
 
 Example ellipse_rows_example :
   let im := [[3; 3; 0]; [0; 3; 7]; [7; 7; 7]] in
-  ellipse_moments im [7; 3] = EllRows (ells im [7; 3]) /\ nzp im <> [].
-Proof. cbv zeta. split; [vm_compute; reflexivity|vm_compute; discriminate]. Qed.
+  ellipse_moments im [7; 3] = EllRows (ells im [7; 3]) /\ nzp im <> [] /\
+  ellipse_moments im [9; 3; 1] = EllRows (ells im [9; 3; 1]) /\ nth 0 (ells im [9; 3; 1]) None = None.
+Proof. cbv zeta. split; [vm_compute; reflexivity|]. split; [vm_compute; discriminate|]. split; vm_compute; reflexivity. Qed.
